@@ -10,6 +10,10 @@ from . import types as T
 from .gen import check_scoping, int_expr
 
 NAMES = ['x', 'y', 'z', 'a', 'b', 'n']     # deliberately shared by macro locals and call sites
+# macro-local names also come in pairs that differ by a trailing digit only (x / x1 / x11): a renaming scheme that appends
+# counters to identifiers must not make the k-th copy of `x` meet a copy of `x<k>`
+DIGIT_BASES = ['x', 'y', 'z', 'n']
+SITE_NAMES = NAMES + ['x1', 'y1']
 
 
 # ------------------------------------------------------------------------------------------------
@@ -199,8 +203,14 @@ def gen_macro_program(rng, dom=4):
     def gen_body_macro(idx):
         nparams = rng.randint(1, 3)
         params = [('p%d' % i, rng.choice(['ident', 'expr', 'expr'])) for i in range(nparams)]
-        nlocals = rng.randint(0, 2)
-        locs = rng.sample(NAMES, nlocals)
+        nlocals = rng.randint(0, 3)
+        if nlocals >= 2 and rng.random() < 0.5:
+            b = rng.choice(DIGIT_BASES)
+            locs = ([b, b + '1', b + rng.choice(['2', '11'])])[:nlocals]
+        elif nlocals == 1 and rng.random() < 0.3:
+            locs = [rng.choice(DIGIT_BASES) + '1']
+        else:
+            locs = rng.sample(NAMES, nlocals)
         body = []
         avail = ['$' + p for p, _ in params] + locs
         bound_locs = []
@@ -242,6 +252,16 @@ def gen_macro_program(rng, dom=4):
                 ok = True
                 for (pn, kind) in callee.params:
                     cands = [V('$' + p) for p, k in params if (kind == 'expr' or k == 'ident')] + [V(l) for l in bound_locs]
+                    # a local that nothing in this body binds: it is bound by the nested invocation only (the callee mentions
+                    # each of its parameters in a clause; where that does not bind it first, the expansion is ill-scoped and dropped)
+                    fresh = [l for l in locs if l not in bound_locs] or [n for n in NAMES if n not in locs][:1]
+                    if fresh and (not cands or rng.random() < 0.35):
+                        l = rng.choice(fresh)
+                        if l not in locs:
+                            locs.append(l)
+                        bound_locs.append(l)
+                        args.append(V(l))
+                        continue
                     if not cands:
                         ok = False
                         break
@@ -281,7 +301,7 @@ def gen_macro_program(rng, dom=4):
                         if bound and rng.random() < 0.5:
                             v = rng.choice(bound)
                         else:
-                            v = rng.choice(NAMES)
+                            v = rng.choice(SITE_NAMES)
                             if v not in bound:
                                 bound.append(v)
                         args.append(V(v))
@@ -331,6 +351,103 @@ def gen_macro_program(rng, dom=4):
             heads = [MacroCall(name, [V(rng.choice(bound)) if rng.random() < 0.8 else int_expr(rng, bound, dom) for _ in md.params])]
         else:
             heads = [Head(o.name, [V(rng.choice(bound)) for _ in o.tys])]
+        # probe head: the rule's own join result projected on its call-site variables stays observable even when the shared output
+        # relations are saturated by other rules
+        qn = 'q%d' % ri
+        rels.append(Rel(qn, [T.I32] * len(bound[:4])))
+        heads.append(Head(qn, [V(v) for v in bound[:4]]))
         rules.append(Rule(heads, body))
     prog = Program(rels, rules, macros)
     return prog, inputs
+
+
+# ------------------------------------------------------------------------------------------------
+# consistent renaming of variables in a program with macros (C06)
+
+RENAME_POOL = ['x', 'x1', 'x2', 'x11', 'y', 'y1', 'y2', 'z', 'z1', 'a', 'a1', 'b', 'n', 'n1', 'mid', 'w', 'w1', 'k', 'k1', 'q']
+
+
+def rename_program(prog, rng, pool=RENAME_POOL):
+    """every macro's local identifiers and every rule's variables renamed injectively (per macro / per rule) into `pool`"""
+    def inj(names):
+        names = sorted(names)
+        if rng.random() < 0.7:
+            # one family of spellings that differ by trailing digits only
+            b = rng.choice(['x', 'y', 'v', 'n'])
+            p = [b, b + '1', b + '2', b + '11', b + '12', b + '21', b + '3', b + '111']
+            head, tail = p[:max(2, len(names))], p[max(2, len(names)):]
+            rng.shuffle(head)
+            p = head + tail
+        else:
+            p = list(pool)
+            rng.shuffle(p)
+        return {v: (p[i] if i < len(p) else 'vv%d' % i) for i, v in enumerate(names)}
+    macros = []
+    for md in prog.macros:
+        if md.body is None:
+            macros.append(md)
+            continue
+        locs = set()
+        for it in md.body:
+            item_idents(it, locs)
+        m = inj(v for v in locs if not v.startswith('$'))
+        macros.append(MacroDef(md.name, md.params, body=[subst_item(it, m) for it in md.body]))
+    rules = []
+    for r in prog.rules:
+        vs = set()
+        for it in r.body:
+            item_idents(it, vs)
+        for h in r.heads:
+            for a in h.args:
+                vs |= set(a.vars())
+        m = inj(vs)
+        heads = [MacroCall(h.name, [subst_macro_arg(a, m) for a in h.args]) if isinstance(h, MacroCall) else Head(h.rel, [subst_expr(a, m) for a in h.args])
+                 for h in r.heads]
+        rules.append(Rule(heads, [subst_item(it, m) for it in r.body], r.brace))
+    return Program(prog.rels, rules, macros, prog.attrs)
+
+
+def gen_screened_program(rng, dom):
+    """gen_macro_program + independent expansion, or None if the expansion is ill-scoped, too large, or too expensive for the
+    naive reference (probe on a dense input with a small step budget)"""
+    from . import gen as G, xform as X, ref as R
+    prog, input_rels = gen_macro_program(rng, dom)
+    try:
+        exp = Expander(prog.macros).expand_program(prog)
+    except Exception:
+        return None
+    if G.check_scoping(exp) or not exp.rules:
+        return None
+    if max(len(X.expand_disjunctions(r.body)[0]) for r in exp.rules) > 9 or sum(len(X.expand_disjunctions(r.body)) for r in exp.rules) > 40:
+        return None        # keep expansions small: long bodies are exponentially expensive for every evaluator
+    probe = list(dict.fromkeys(G.gen_input(random.Random(1), exp, input_rels, dom, kind='dense')))
+    old_limit = R.Budget.limit
+    R.Budget.limit = 150000
+    try:
+        R.evaluate(exp, G.input_to_dict(probe))
+    except R.RefError:
+        return None
+    finally:
+        R.Budget.limit = old_limit
+    return prog, exp, input_rels
+
+
+def gen_screened_input(rng, exp, input_rels, dom, kinds=('dense', 'directed', 'directed', 'skew'), limit=400000):
+    """an input (no duplicate rows) that the naive reference gets through within `limit` steps; sparser kinds are tried if not"""
+    from . import gen as G, ref as R
+    old_limit = R.Budget.limit
+    try:
+        for attempt in range(4):
+            kind = rng.choice(kinds) if attempt < 2 else 'directed'
+            rows = list(dict.fromkeys(G.gen_input(rng, exp, input_rels, dom, kind=kind)))
+            if attempt == 3:
+                rows = rows[:max(1, len(rows) // 3)]
+            R.Budget.limit = limit
+            try:
+                R.evaluate(exp, G.input_to_dict(rows))
+                return rows
+            except R.RefError:
+                continue
+        return []
+    finally:
+        R.Budget.limit = old_limit
